@@ -2211,3 +2211,15 @@ impl DirectLink {
         self.0.verif_resume().await
     }
 }
+
+#[cfg(feature = "verif-hooks")]
+impl GateAgent {
+    /// The number of commands that are waiting in the gate's command queue
+    /// (sent by links, agents and clones but not yet taken off the queue by
+    /// `Gate::process`). Read-only; lets an external harness see that the
+    /// gate is not getting to its commands, e.g. because it is waiting for
+    /// room in the command queue of one of its clones.
+    pub fn verif_pending_commands(&self) -> usize {
+        self.commands.max_capacity() - self.commands.capacity()
+    }
+}
